@@ -176,8 +176,12 @@ def run(ctx):
         files.append((p, hashlib.sha256(content).hexdigest(), hashlib.md5(content).hexdigest()))
     wrong = []
 
+    from vf import purity
+
     def worker(t):
         for rnd_ in range(6):
+            # the last two rounds with the thread giving way after every line it executes inside oslo_utils
+            sys.settrace(purity._yield_in_library if rnd_ >= 4 else None)
             for p, sha, md in files[t % 4::4] + files[(t + 1) % 4::4]:
                 try:
                     d = (fileutils.compute_file_checksum(p, read_chunksize=(65536, 4096, 100000)[rnd_ % 3]),
@@ -186,6 +190,7 @@ def run(ctx):
                     d = ('EXC:' + type(e).__name__, None)
                 if d != (sha, md):
                     wrong.append((p, d))
+        sys.settrace(None)
     old_si = sys.getswitchinterval()
     sys.setswitchinterval(1e-6)
     try:
